@@ -1,0 +1,354 @@
+//! Verification hooks. Compiled only with `--cfg vicut_verif`; with the flag off
+//! this module does not exist and the crate is unchanged.
+//!
+//! * `--verif-serve` as the first argument turns the binary into a line-protocol
+//!   server (one JSON request per line on stdin, one JSON answer per line on
+//!   stdout) which drives the private editor API in-process, every request under
+//!   `catch_unwind`.
+//! * `VICUT_VERIF_DUMP=cmds` prints the parsed `Opts`/`Cmd` tree and exits 0.
+//! * `VICUT_VERIF_JITTER` / `VICUT_VERIF_TRACE` perturb and record the schedule of
+//!   `execute()` units.
+use std::io::{BufRead, Write};
+use std::panic::{catch_unwind, AssertUnwindSafe};
+
+use serde_json::{json, Map, Value};
+use unicode_segmentation::UnicodeSegmentation;
+
+use crate::exec::ViCut;
+use crate::linebuf::{Edit, LineBuf};
+use crate::reader::{KeyReader, RawReader};
+use crate::register::{RegisterContent, Registers, REGISTERS};
+use crate::vic::CmdArg;
+use crate::{Cmd, Opts};
+
+fn reg_json(c: &RegisterContent) -> Value {
+	match c {
+		RegisterContent::Span(s) => json!({"k":"span","t":s}),
+		RegisterContent::Line(s) => json!({"k":"line","t":s}),
+		RegisterContent::Block(v) => json!({"k":"block","t":v}),
+		RegisterContent::Empty => json!({"k":"empty","t":""}),
+	}
+}
+
+fn regs_json() -> Value {
+	let mut m = Map::new();
+	REGISTERS.with_borrow(|regs| {
+		m.insert("\"".into(), reg_json(regs.get_reg(None).unwrap().content()));
+		for ch in 'a'..='z' {
+			let r = regs.get_reg(Some(ch)).unwrap();
+			let c = r.content();
+			// skip untouched registers to keep answers small
+			if let RegisterContent::Span(s) = c {
+				if s.is_empty() { continue }
+			}
+			m.insert(ch.to_string(), reg_json(c));
+		}
+	});
+	Value::Object(m)
+}
+
+fn reset_regs() {
+	REGISTERS.with_borrow_mut(|r| *r = Registers::new());
+}
+
+fn edits_json(stack: &[Edit]) -> Value {
+	Value::Array(stack.iter().map(|e| json!({
+		"pos": e.pos, "old": e.old, "new": e.new, "merging": e.merging,
+		"old_diff": e.old_diff, "new_diff": e.new_diff, "cursor_pos": e.cursor_pos
+	})).collect())
+}
+
+fn lb_json(lb: &LineBuf) -> Value {
+	let fresh: Vec<usize> = lb.buffer.grapheme_indices(true).map(|(i,_)| i).collect();
+	let cur = format!("{:?}", lb.cursor);
+	json!({
+		"buf": lb.buffer,
+		"fresh": fresh,
+		"cached": lb.grapheme_indices,
+		"cursor": lb.cursor.get(),
+		"cmax": lb.cursor.cap(),
+		"cursor_dbg": cur,
+		"select_mode": lb.select_mode.map(|m| format!("{m:?}")),
+		"select_range": lb.select_range.as_ref().map(|r| format!("{r:?}")),
+		"last_selection": lb.last_selection.as_ref().map(|r| format!("{r:?}")),
+		"saved_col": lb.saved_col,
+		"ims": lb.insert_mode_start_pos,
+		"undo": edits_json(&lb.undo_stack),
+		"redo": edits_json(&lb.redo_stack),
+		"last_search": lb.last_pattern_search.as_ref().map(|r| r.as_str().to_string()),
+	})
+}
+
+fn vicut_json(v: &mut ViCut) -> Value {
+	let mode = format!("{:?}", v.mode.report_mode());
+	let pending = v.mode.pending_seq();
+	let repeat = v.repeat_action.as_ref().map(|r| format!("{r:?}"));
+	let repeat_motion = v.repeat_motion.as_ref().map(|r| format!("{r:?}"));
+	let queue: Vec<u8> = v.reader.bytes.iter().copied().collect();
+	let escaped = v.reader.is_escaped;
+	let mut o = lb_json(v.current_buffer());
+	let m = o.as_object_mut().unwrap();
+	m.insert("mode".into(), json!(mode));
+	m.insert("pending".into(), json!(pending));
+	m.insert("repeat".into(), json!(repeat));
+	m.insert("repeat_motion".into(), json!(repeat_motion));
+	m.insert("queue".into(), json!(queue));
+	m.insert("escaped".into(), json!(escaped));
+	m.insert("regs".into(), regs_json());
+	o
+}
+
+fn s(v: &Value, k: &str) -> String {
+	v.get(k).and_then(|x| x.as_str()).unwrap_or("").to_string()
+}
+fn n(v: &Value, k: &str) -> usize {
+	v.get(k).and_then(|x| x.as_u64()).unwrap_or(0) as usize
+}
+fn b(v: &Value, k: &str) -> bool {
+	v.get(k).and_then(|x| x.as_bool()).unwrap_or(false)
+}
+
+/// `keys`: fresh `ViCut` on `text` at `cursor`; for every element of `keys`
+/// (`{"k": "<keys>", "field": bool}` or a plain string = field) do what
+/// `execute()` does for one `-c`/`-m` flag: `read_field`, then `set_normal_mode`
+/// unless `keep_mode`. The state is dumped after every element.
+fn op_keys(req: &Value) -> Value {
+	if !b(req, "keep_regs") { reset_regs(); }
+	if let Some(pre) = req.get("regs").and_then(|x| x.as_object()) {
+		for (name, val) in pre {
+			let ch = name.chars().next();
+			let ch = if ch == Some('"') { None } else { ch };
+			let t = s(val, "t");
+			let c = match s(val, "k").as_str() {
+				"line" => RegisterContent::Line(t),
+				"block" => RegisterContent::Block(t.split('\n').map(|x| x.to_string()).collect()),
+				_ => RegisterContent::Span(t),
+			};
+			crate::register::write_register(ch, c);
+		}
+	}
+	let mut v = match ViCut::new(s(req, "text"), n(req, "cursor")) {
+		Ok(v) => v,
+		Err(e) => return json!({"err": e}),
+	};
+	let keep_mode = b(req, "keep_mode");
+	let last_only = b(req, "last_only");
+	let mut steps = vec![];
+	let empty = vec![];
+	let keys = req.get("keys").and_then(|x| x.as_array()).unwrap_or(&empty);
+	let init = if last_only { Value::Null } else { vicut_json(&mut v) };
+	let nkeys = keys.len();
+	for (i, k) in keys.iter().enumerate() {
+		let kstr = k.as_str().map(|x| x.to_string()).unwrap_or_else(|| s(k, "k"));
+		let r = catch_unwind(AssertUnwindSafe(|| v.read_field(&kstr)));
+		let field = match r {
+			Ok(Ok(f)) => json!({"ok": f}),
+			Ok(Err(e)) => json!({"err": e}),
+			Err(p) => {
+				let msg = panic_msg(&p);
+				steps.push(json!({"panic": msg}));
+				break
+			}
+		};
+		let pre_snm = if b(req, "pre_snm") { Some(vicut_json(&mut v)) } else { None };
+		if !keep_mode {
+			let r = catch_unwind(AssertUnwindSafe(|| v.set_normal_mode()));
+			if let Err(p) = r {
+				steps.push(json!({"panic": panic_msg(&p), "field": field}));
+				break
+			}
+		}
+		if last_only && i + 1 != nkeys {
+			steps.push(json!({"field": field}));
+			continue
+		}
+		let r = catch_unwind(AssertUnwindSafe(|| vicut_json(&mut v)));
+		match r {
+			Ok(mut st) => {
+				st.as_object_mut().unwrap().insert("field".into(), field);
+				if let Some(p) = pre_snm { st.as_object_mut().unwrap().insert("pre_snm".into(), p); }
+				steps.push(st);
+			}
+			Err(p) => { steps.push(json!({"panic": panic_msg(&p), "field": field})); break }
+		}
+	}
+	json!({"init": init, "steps": steps})
+}
+
+fn panic_msg(p: &Box<dyn std::any::Any + Send>) -> String {
+	let msg = if let Some(s) = p.downcast_ref::<&str>() { s.to_string() }
+		else if let Some(s) = p.downcast_ref::<String>() { s.clone() }
+		else { "?".to_string() };
+	let loc = LAST_PANIC_LOC.with_borrow(|l| l.clone());
+	format!("{loc}: {msg}")
+}
+
+thread_local! {
+	static LAST_PANIC_LOC: std::cell::RefCell<String> = const { std::cell::RefCell::new(String::new()) };
+}
+
+/// `readkeys`: bytes -> the key events `RawReader` produces, until it returns `None`.
+fn op_readkeys(req: &Value) -> Value {
+	let bytes: Vec<u8> = req.get("bytes").and_then(|x| x.as_array()).map(|a| a.iter().map(|x| x.as_u64().unwrap_or(0) as u8).collect()).unwrap_or_default();
+	let mut r = RawReader::new();
+	r.load_bytes(&bytes);
+	let mut out = vec![];
+	let mut guard = 0usize;
+	while let Some(k) = r.read_key() {
+		out.push(format!("{k:?}"));
+		guard += 1;
+		if guard > bytes.len() + 4 { out.push("RUNAWAY".into()); break }
+	}
+	let rest: Vec<u8> = r.bytes.iter().copied().collect();
+	json!({"keys": out, "rest": rest, "escaped": r.is_escaped})
+}
+
+fn recs_of(v: &Value) -> Vec<Vec<(String,String)>> {
+	v.as_array().map(|a| a.iter().map(|rec| {
+		rec.as_array().map(|r| r.iter().map(|f| {
+			let p = f.as_array().unwrap();
+			(p[0].as_str().unwrap_or("").to_string(), p[1].as_str().unwrap_or("").to_string())
+		}).collect()).unwrap_or_default()
+	}).collect()).unwrap_or_default()
+}
+
+fn op_format(req: &Value) -> Value {
+	let recs = recs_of(req.get("recs").unwrap_or(&Value::Null));
+	match s(req, "fmt").as_str() {
+		"json" => json!({"out": crate::format_output_json(recs)}),
+		"template" => match crate::format_output_template(&s(req, "arg"), recs) {
+			Ok(o) => json!({"out": o}),
+			Err(e) => json!({"err": e}),
+		},
+		_ => json!({"out": crate::format_output_standard(&s(req, "arg"), recs)}),
+	}
+}
+
+fn op_getlines(req: &Value) -> Value {
+	json!({"lines": crate::get_lines(&s(req, "text"))})
+}
+
+fn op_diff(req: &Value) -> Value {
+	let e = Edit::diff(&s(req, "a"), &s(req, "b"), n(req, "cursor"));
+	json!({"pos": e.pos, "old_diff": e.old_diff, "new_diff": e.new_diff})
+}
+
+pub fn serve() {
+	std::panic::set_hook(Box::new(|info| {
+		let loc = info.location().map(|l| format!("{}:{}", l.file(), l.line())).unwrap_or_default();
+		LAST_PANIC_LOC.with_borrow_mut(|l| *l = loc);
+	}));
+	let stdin = std::io::stdin();
+	let mut out = std::io::stdout().lock();
+	for line in stdin.lock().lines() {
+		let Ok(line) = line else { break };
+		if line.trim().is_empty() { continue }
+		let req: Value = match serde_json::from_str(&line) {
+			Ok(v) => v,
+			Err(e) => { writeln!(out, "{}", json!({"bad_request": e.to_string()})).ok(); continue }
+		};
+		let ans = catch_unwind(AssertUnwindSafe(|| match s(&req, "op").as_str() {
+			"keys" => op_keys(&req),
+			"readkeys" => op_readkeys(&req),
+			"format" => op_format(&req),
+			"getlines" => op_getlines(&req),
+			"diff" => op_diff(&req),
+			other => json!({"bad_op": other}),
+		}));
+		let ans = match ans {
+			Ok(a) => a,
+			Err(p) => json!({"panic": panic_msg(&p)}),
+		};
+		writeln!(out, "{}", ans).ok();
+		out.flush().ok();
+	}
+}
+
+/// Called first thing in `main()`. Returns true when the process was a server.
+pub fn entry() -> bool {
+	if std::env::args().nth(1).as_deref() == Some("--verif-serve") {
+		serve();
+		return true
+	}
+	false
+}
+
+fn arg_json(a: &CmdArg) -> Value {
+	match a {
+		CmdArg::Null => json!(["null"]),
+		CmdArg::Literal(v) => json!(["lit", v.to_string()]),
+		CmdArg::Var(v) => json!(["var", v]),
+		CmdArg::Count(n) => json!(["count", n]),
+		CmdArg::Expr(e) => json!(["expr", format!("{e:?}")]),
+	}
+}
+
+fn cmd_json(c: &Cmd) -> Value {
+	match c {
+		Cmd::BreakGroup => json!(["next"]),
+		Cmd::Motion(a) => json!(["move", arg_json(a)]),
+		Cmd::Field(a) => json!(["cut", arg_json(a)]),
+		Cmd::NamedField(n, a) => json!(["ncut", n, arg_json(a)]),
+		Cmd::Repeat { body, count } => json!(["repeat", arg_json(count), body.iter().map(cmd_json).collect::<Vec<_>>()]),
+		Cmd::Global { pattern, then_cmds, else_cmds, polarity } => json!([
+			"global", polarity, arg_json(pattern),
+			then_cmds.iter().map(cmd_json).collect::<Vec<_>>(),
+			else_cmds.as_ref().map(|e| e.iter().map(cmd_json).collect::<Vec<_>>())
+		]),
+		other => json!(["other", format!("{other:?}")]),
+	}
+}
+
+/// Called after the command line has been parsed.
+pub fn dump_opts(opts: &Opts) {
+	if std::env::var("VICUT_VERIF_DUMP").as_deref() != Ok("cmds") { return }
+	let o = json!({
+		"delimiter": opts.delimiter, "template": opts.template, "max_jobs": opts.max_jobs,
+		"backup_extension": opts.backup_extension,
+		"edit_inplace": opts.edit_inplace, "json": opts.json, "trace": opts.trace,
+		"linewise": opts.linewise, "trim_fields": opts.trim_fields, "keep_mode": opts.keep_mode,
+		"backup_files": opts.backup_files, "single_thread": opts.single_thread,
+		"global_uses_line_numbers": opts.global_uses_line_numbers, "no_input": opts.no_input,
+		"silent": opts.silent,
+		"files": opts.files.iter().map(|p| p.to_string_lossy().to_string()).collect::<Vec<_>>(),
+		"cmds": opts.cmds.iter().map(cmd_json).collect::<Vec<_>>(),
+	});
+	println!("{o}");
+	std::process::exit(0);
+}
+
+fn fnv(seed: u64, data: &[u8]) -> u64 {
+	let mut h = 0xcbf29ce484222325u64 ^ seed.wrapping_mul(0x9e3779b97f4a7c15);
+	for b in data { h ^= *b as u64; h = h.wrapping_mul(0x100000001b3); }
+	h ^ (h >> 29)
+}
+
+thread_local! {
+	static UNIT_SEQ: std::cell::Cell<u64> = const { std::cell::Cell::new(0) };
+}
+
+/// Called at the top of `execute()`: seeded jitter and an optional trace line
+/// `(thread, per-thread sequence number, unit text hash, unit text)`.
+pub fn unit_probe(input: &str, filename: &Option<std::path::PathBuf>) {
+	if let Ok(seed) = std::env::var("VICUT_VERIF_JITTER") {
+		let seed: u64 = seed.parse().unwrap_or(0);
+		let h = fnv(seed, input.as_bytes());
+		let us = h % 300;
+		if h & 0x400 != 0 {
+			std::thread::sleep(std::time::Duration::from_micros(us));
+		} else {
+			for _ in 0..(us % 4) { std::thread::yield_now(); }
+		}
+	}
+	if let Ok(path) = std::env::var("VICUT_VERIF_TRACE") {
+		let seq = UNIT_SEQ.with(|c| { let v = c.get(); c.set(v + 1); v });
+		let tid = format!("{:?}", std::thread::current().id());
+		let line = json!({"tid": tid, "seq": seq, "file": filename.as_ref().map(|p| p.to_string_lossy().to_string()), "text": input});
+		if let Ok(mut f) = std::fs::OpenOptions::new().create(true).append(true).open(path) {
+			// one write call per line: O_APPEND keeps lines whole
+			let mut buf = line.to_string();
+			buf.push('\n');
+			f.write_all(buf.as_bytes()).ok();
+		}
+	}
+}
